@@ -10,7 +10,8 @@ permutation x metric/tree x leaf size x query sequences over 3 positions x
 radii (numbers and every unit name). Part "large" (c06_large.py): regular
 grids of 200 and 5000 points with the structured permutation family. Part
 "many" (c06_many.py): one call with n query points for every n up to a bound.
-Part "history" (c06_history.py): several indexes alive at once.
+Part "history" (c06_history.py): several indexes alive at once. Part "radius"
+(c06_radius.py): spellings of a metre-scale radius and numpy scalars.
 """
 import itertools
 import math
@@ -22,7 +23,7 @@ driver.setup_env()
 import numpy as np                                    # noqa: E402
 
 from checks import (c06_history, c06_large, c06_many,   # noqa: E402
-                    c06_model as model)
+                    c06_model as model, c06_radius)
 
 PROP = "C06"
 LEVEL = "exploration"
@@ -49,14 +50,22 @@ RULE = ("Small part: build arrays = every sequence (with repetition) of "
         "km), and with these two numbers. One evaluation = one query() "
         "call; all are distinct inputs by construction. Non-trivial = at "
         "least one pair is expected.")
-RULE += " " + c06_large.RULE + " " + c06_many.RULE + " " + c06_history.RULE
+RULE += " ".join(["", c06_radius.RULE, c06_large.RULE, c06_many.RULE,
+                  c06_history.RULE])
 ASSUMPTIONS = [
     "the Earth is the sphere of radius typhon.constants.earth_radius",
     "lat, lon are passed as float64 numpy arrays (lists and scalars are "
     "rejected by _to_metric although the docstring allows them); lon in "
     "[-180, 180]",
     "metric='haversine' with tree_class='KD' is rejected by scikit-learn "
-    "(ValueError in the constructor) and is outside the domain",
+    "(ValueError in the constructor) and is outside the domain; each "
+    "explicit spelling (metric='minkowski', tree_class='KD', 'Ball') occurs "
+    "in one of the three metric/tree combinations, not in every "
+    "combination with the defaults of the other argument",
+    "a radius is a Python int or float, a numpy integer or floating scalar "
+    "or a string '<number><blanks or tab><unit>' with blanks around it; "
+    "numpy.float32 radii keep 2e-7 (relative) away from every lattice "
+    "distance (asserted)",
     "the build points are shuffled by a call of numpy.random.shuffle on an "
     "array of their length; a build with shuffle on that does not reach "
     "this seam is a harness error, not a pass",
@@ -198,8 +207,9 @@ def shards(tier, seed):
         total = len(build_inputs(part)) * queries_per_input(part)
         nchunks = min(len(build_inputs(part)), math.ceil(total / 60000))
         out += [("small", part, k, nchunks) for k in range(nchunks)]
-    return out + c06_large.shards(tier, seed) + \
-        c06_many.shards(tier, seed) + c06_history.shards(tier, seed)
+    return out + c06_radius.shards(tier, seed) + \
+        c06_large.shards(tier, seed) + c06_many.shards(tier, seed) + \
+        c06_history.shards(tier, seed)
 
 
 class Small:
@@ -228,12 +238,8 @@ def query_arrays(qseq):
 
 def unit_verdict(bad, r, bad_twin):
     """A radius with a unit against its numeric twin on the same index and
-    query: a failure they share has one root cause and is reported for the
-    number; one that only the spelling has is the unit's."""
-    if bad is None or bad_twin is not None:
-        return None
-    return ("radius-unit/%s/differs-from-the-same-length-in-km"
-            % model.unit_of(r),) + bad[1:]
+    query."""
+    return model.spelling_verdict(bad, bad_twin, model.unit_key(r))
 
 
 def run_small(res, seam, shard):
@@ -253,6 +259,7 @@ def run_small(res, seam, shard):
                     res.error(str(e))
                     return
                 except Exception as e:
+                    model.reraise_watchdog(e)
                     res.violation("build/exception/" + type(e).__name__,
                                   case, None, repr(e)[:200])
                     continue
@@ -282,8 +289,8 @@ def run_small(res, seam, shard):
 
 def run_shard(shard):
     res = driver.ShardResult()
-    for e in lattice_errors() + c06_large.lattice_errors() + \
-            c06_many.lattice_errors():
+    for e in lattice_errors() + c06_radius.lattice_errors() + \
+            c06_large.lattice_errors() + c06_many.lattice_errors():
         res.error(e)
     if res.errors:
         return res
@@ -294,6 +301,8 @@ def run_shard(shard):
             c06_many.run(res, seam, shard, replay)
         elif shard[0] == "history":
             c06_history.run(res, seam, shard, replay)
+        elif shard[0] == "radius":
+            c06_radius.run(res, seam, shard, replay)
         else:
             run_small(res, seam, shard)
     return res
@@ -327,6 +336,8 @@ def replay(case):
             bad = c06_many.replay(seam, case)
         elif case["part"] == "history":
             bad = c06_history.replay(seam, case)
+        elif case["part"] == "radius":
+            bad = c06_radius.replay(seam, case)
         else:
             bad = replay_small(seam, case)
     if bad is None:
